@@ -50,14 +50,7 @@ Qed.
 Section WithOracle.
 Variable sv : sigfun.
 
-(* the full characterisation of VerifyParent's success *)
-Definition parent_ok (child par : cert) : Prop :=
-  ((ctype child = Leaf /\ ctype par = Intermediate /\ parent child = fp par) \/
-   (ctype child = Intermediate /\ ctype par = Root /\ parent child = fp par) \/
-   (ctype child = Root /\ ctype par = Root /\ parent child = zero_fp)) /\
-  signed_by sv par child.
-
-Lemma verify_parent_ok_iff : forall child par, verify_parent sv child par = VPOk <-> parent_ok child par.
+Lemma verify_parent_ok_iff : forall child par, verify_parent sv child par = VPOk <-> parent_ok sv child par.
 Proof.
   intros child par. unfold verify_parent, vp_type_check, parent_ok, signed_by, Leaf, Intermediate, Root, zero_fp.
   destruct (ctype child =? 1) eqn:E1; [apply N.eqb_eq in E1|apply N.eqb_neq in E1].
@@ -324,6 +317,55 @@ Proof.
   rewrite HP. destruct (parent leaf =? fp p) eqn:E; [apply N.eqb_eq in E; congruence|reflexivity].
 Qed.
 
+
+(* the expiry bound is exclusive, for each of the three certificates; the last instant before the
+   leaf's expiry is accepted when it lies inside the other two windows *)
+Lemma expiry_exclusive_all : forall st o leaf im root,
+  select_intermediate st o leaf = Some im -> chain_links sv st o leaf im root ->
+  verify_leaf sv clock st (with_cur o (na leaf)) leaf <> VOk /\
+  verify_leaf sv clock st (with_cur o (na im)) leaf <> VOk /\
+  verify_leaf sv clock st (with_cur o (na root)) leaf <> VOk.
+Proof.
+  intros st o leaf im root HS HL.
+  repeat split; intro H; apply (verify_leaf_window st o leaf im root _ HS HL) in H;
+    unfold valid_at in H; lia.
+Qed.
+
+Lemma last_instant_accepted : forall st o leaf im root,
+  select_intermediate st o leaf = Some im -> chain_links sv st o leaf im root ->
+  (nb leaf <= na leaf - 1)%Z -> valid_at (na leaf - 1) im -> valid_at (na leaf - 1) root ->
+  verify_leaf sv clock st (with_cur o (na leaf - 1)) leaf = VOk.
+Proof.
+  intros st o leaf im root HS HL H1 H2 H3.
+  apply (verify_leaf_window st o leaf im root _ HS HL). unfold valid_at in *. lia.
+Qed.
+
+Lemma first_instant_accepted : forall st o leaf im root,
+  select_intermediate st o leaf = Some im -> chain_links sv st o leaf im root ->
+  (nb leaf < na leaf)%Z -> valid_at (nb leaf) im -> valid_at (nb leaf) root ->
+  verify_leaf sv clock st (with_cur o (nb leaf)) leaf = VOk /\
+  verify_leaf sv clock st (with_cur o (nb leaf - 1)) leaf <> VOk.
+Proof.
+  intros st o leaf im root HS HL H1 H2 H3. split.
+  - apply (verify_leaf_window st o leaf im root _ HS HL). unfold valid_at in *. lia.
+  - intro H. apply (verify_leaf_window st o leaf im root _ HS HL) in H. unfold valid_at in H. lia.
+Qed.
+
+(* acceptance exhibits a root-type trust anchor in the store *)
+Lemma accepted_anchor_root : forall st o leaf,
+  verify_leaf sv clock st o leaf = VOk ->
+  exists im root, fp im = parent leaf /\ st (parent im) = Some root /\ fp root = parent im /\ ctype root = Root.
+Proof.
+  intros st o leaf H. apply verify_leaf_sound in H.
+  destruct H as [im [root [[_ [_ [H3 [_ [_ [_ [H7 [H8 [H9 _]]]]]]]]] _]]].
+  exists im, root. auto.
+Qed.
+
+Lemma body_differs : forall c1 c2,
+  (ctype c1 <> ctype c2 \/ names c1 <> names c2 \/ nb c1 <> nb c2 \/ na c1 <> na c2 \/
+   pk c1 <> pk c2 \/ parent c1 <> parent c2) -> body c1 <> body c2.
+Proof. intros c1 c2 H E. unfold body in E. inversion E. tauto. Qed.
+
 (* ------------------------------------------------------------------ mutations, under idealised crypto *)
 Section Crypto.
 Variable U : cert -> Prop.   (* the certificates that exist in a scenario (parsed byte strings) *)
@@ -354,6 +396,18 @@ Proof.
   destruct (accepted_signed _ _ _ HV) as [im H1].
   destruct (accepted_signed _ _ _ HV') as [im' H2].
   apply HB. eapply sig_sound; eauto.
+Qed.
+
+Lemma leaf_any_field_mutation_rejected : forall st o leaf st' o' leaf',
+  U leaf -> U leaf' ->
+  verify_leaf sv clock st o leaf = VOk ->
+  sg leaf' = sg leaf ->
+  (ctype leaf' <> ctype leaf \/ names leaf' <> names leaf \/ nb leaf' <> nb leaf \/ na leaf' <> na leaf \/
+   pk leaf' <> pk leaf \/ parent leaf' <> parent leaf) ->
+  verify_leaf sv clock st' o' leaf' <> VOk.
+Proof.
+  intros st o leaf st' o' leaf' HU HU' HV HS HD.
+  apply (leaf_field_mutation_rejected st o leaf st' o' leaf' HU HU' HV HS). apply body_differs. exact HD.
 Qed.
 
 (* the intermediate that an accepting run used is the genuine one: the only certificate of the
@@ -471,7 +525,7 @@ Lemma issued_chain_verifies :
     issue_leaf_at im true idl t2 d2 sl fl rl = Some leaf ->
     sign_correct root im -> sign_correct im leaf ->
     st (fp root) = Some root ->
-    (presented o = Some im \/ (presented o = None /\ st (fp im) = Some im)) ->
+    (presented o = Some im \/ ((forall p, presented o = Some p -> fp p <> fp im) /\ st (fp im) = Some im)) ->
     name_req o leaf ->
     valid_at (now_of clock o) leaf ->
     verify_leaf sv clock st o leaf = VOk.
@@ -491,7 +545,9 @@ Proof.
   assert (HSel : select_intermediate st o leaf = Some im).
   { unfold select_intermediate. destruct HOff as [H|[H1 H2]].
     - rewrite H. rewrite L4. rewrite N.eqb_refl. reflexivity.
-    - rewrite H1. rewrite L4. exact H2. }
+    - rewrite L4. destruct (presented o) as [p|]; [|exact H2].
+      destruct (fp im =? fp p) eqn:E; [|exact H2].
+      apply N.eqb_eq in E. exfalso. apply (H1 p); auto. }
   split; [exact HSel|].
   unfold valid_at in *.
   split.
@@ -520,7 +576,7 @@ Lemma issued_chain_verifies_reparsed :
     issue_leaf_at im true idl t2 d2 sl fl rl = Some leaf ->
     sv (pk root) (retime q im) = true -> sv (pk im) (retime q leaf) = true ->
     st (fp root) = Some (retime q root) ->
-    (presented o = Some (retime q im) \/ (presented o = None /\ st (fp im) = Some (retime q im))) ->
+    (presented o = Some (retime q im) \/ ((forall p, presented o = Some p -> fp p <> fp im) /\ st (fp im) = Some (retime q im))) ->
     name_req o leaf ->
     valid_at (now_of clock o) (retime q leaf) ->
     verify_leaf sv clock st o (retime q leaf) = VOk.
@@ -540,7 +596,9 @@ Proof.
   assert (HSel : select_intermediate st o (retime q leaf) = Some (retime q im)).
   { unfold select_intermediate. cbn [retime parent fp]. destruct HOff as [H|[H1 H2]].
     - rewrite H. cbn [retime fp]. rewrite L4. rewrite N.eqb_refl. reflexivity.
-    - rewrite H1. rewrite L4. exact H2. }
+    - rewrite L4. destruct (presented o) as [p|]; [|exact H2].
+      destruct (fp im =? fp p) eqn:E; [|exact H2].
+      apply N.eqb_eq in E. exfalso. apply (H1 p); auto. }
   split; [exact HSel|].
   unfold valid_at in *. cbn [retime nb na] in *.
   split.
